@@ -537,7 +537,8 @@ class LazyTable:
 
     def get(self, hist, default=None):
         import torch
-        hist = tuple(int(x) for x in hist)
+        hist = tuple(hist.tolist()) if hasattr(hist, "tolist") else \
+            hist if type(hist) is tuple and all(type(x) is int for x in hist) else tuple(int(x) for x in hist)
         if hist in self.rows:
             return self.rows[hist]
         if len(hist) > self.depth or any(not (0 <= x < self.V) or x == self.eos for x in hist):
